@@ -59,7 +59,7 @@ def validate(case):
         raise C.CaseInvalid("send_fault")
     if case.get("send_errno", "ETIMEDOUT") not in ("ETIMEDOUT", "EINVAL", "generic", "EHOSTUNREACH", "EPIPE", "ECONNRESET"):
         raise C.CaseInvalid("send_errno")
-    if case.get("gran", "sync") not in ("sync", "line") or case.get("reqs", 1) not in (1, 2):
+    if case.get("gran", "sync") not in ("sync", "line") or case.get("reqs", 1) not in (1, 2, 3):
         raise C.CaseInvalid("gran")
 
 
@@ -69,10 +69,14 @@ OSERROR_NAMES = set(c.__name__ for c in (OSError, TimeoutError, ConnectionError,
 
 def to_scenario(case):
     n = case.get("reqs", 1)
-    stream = "".join("GET /c0/r%d HTTP/1.1\r\nHost: h\r\nX-Conn: 0\r\n\r\n" % i for i in range(n))
+    one_ = ["GET /c0/r%d HTTP/1.1\r\nHost: h\r\nX-Conn: 0\r\n\r\n" % i for i in range(n)]
+    stream = "".join(one_)
     adj = dict(case.get("adj") or {})
     adj["threads"] = 1
-    conn = {"segments": [stream], "capacity": case.get("capacity"), "drain": case.get("drain", "all"),
+    # late_req: the last request arrives in a read of its own (with read-ahead the I/O thread parses it while the producer is paused)
+    conn = {"segments": ["".join(one_[:-1]), one_[-1]] if case.get("late_req") and n > 1 else [stream],
+            # the late request is sent once the client has seen the first response bytes
+            "waits": [None, "continue"] if case.get("late_req") and n > 1 else None, "capacity": case.get("capacity"), "drain": case.get("drain", "all"),
             "drain_stop_after": case.get("stop_after"), "drain_resume": case.get("resume", True), "reset_after_rx": case.get("reset_after"),
             "eof": bool(case.get("eof"))}
     if case.get("send_fault") is not None:
@@ -147,7 +151,7 @@ def run_case_full(case, source=None, record=False):
         if not x["in_map"] and x["tol"] > 0:
             fail("output-accepted-after-teardown", "the connection was torn down, yet %d bytes are accounted as pending output (accepted from the producer afterwards)" % x["tol"])
     # wire is a prefix of the expected bytes (nothing corrupted / reordered); complete unless the client went away or stalled for good
-    exp = observe([s2b(sc["conns"][0]["segments"][0])], adj={k: v for k, v in adj.items() if k != "threads"}, eof=False,
+    exp = observe([s2b("".join(sc["conns"][0]["segments"]))], adj={k: v for k, v in adj.items() if k != "threads"}, eof=False,
                   app=A.MultiConnApp([case["beh"]])).wire
     c0 = r.conns[0]
     got = c0["rx"] + c0["pending"]
@@ -193,10 +197,12 @@ def case_strategy():
             adj["outbuf_overflow"] = draw(st.sampled_from([8, 64]))
         if draw(st.booleans()):
             adj["asyncore_use_poll"] = True
+        if draw(st.integers(0, 3)) == 0:
+            adj["channel_request_lookahead"] = draw(st.sampled_from([1, 2, 3]))
         pat = draw(st.sampled_from(["steady", "steady", "stall-resume", "stall-resume", "reset", "stall-forever", "send-fault", "send-fault"]))
         total = (beh["fw"]["len"] if beh["mode"] == "fw" else sum(len(c) for c in chunks)) + 120
         case = {"beh": beh, "adj": adj, "sndbuf": draw(st.sampled_from([4, 16, 64, 1 << 20])), "capacity": draw(st.sampled_from([5, 16, 50, 300])),
-                "drain": draw(st.sampled_from(["all", 3, 16])), "reqs": draw(st.sampled_from([1, 1, 2])),
+                "drain": draw(st.sampled_from(["all", 3, 16])), "reqs": draw(st.sampled_from([1, 1, 2, 3])), "late_req": draw(st.booleans()),
                 "gran": draw(st.sampled_from(["sync", "sync", "line"])), "schedule": draw(S.schedule_strategy())}
         if pat == "stall-resume":
             case["stop_after"] = draw(st.integers(1, total))
@@ -231,7 +237,16 @@ FIXED = [
 ]
 FW = {"status": "200 OK", "mode": "fw", "chunks": [], "fw": {"seekable": True, "len": 200, "start": 0, "closeable": True, "block": 64}}
 FWN = {"status": "200 OK", "mode": "fw", "chunks": [], "fw": {"seekable": False, "len": 150, "start": 0, "closeable": True, "block": 32}}
+L1 = {"status": "200 OK", "mode": "list", "chunks": ["b" * 100], "declared_cl": 100}
 FIXED += [
+    # the whole response is accepted without a pause (head and body each below the mark), the backlog exceeds the mark only when the
+    # request is over: the producer is paused *between* two pipelined requests while a further request arrives (read-ahead 2)
+    {"beh": L1, "adj": {"outbuf_high_watermark": 150, "send_bytes": 1, "channel_request_lookahead": 2}, "sndbuf": 16, "capacity": 16, "drain": 8, "reqs": 3, "late_req": True},
+    {"beh": L1, "adj": {"outbuf_high_watermark": 150, "send_bytes": 1, "channel_request_lookahead": 3, "asyncore_use_poll": True}, "sndbuf": 32, "capacity": 32, "drain": 16, "reqs": 3, "late_req": True},
+    # read-ahead: requests keep arriving (and are parsed by the I/O thread) while the producer is paused between two pipelined responses
+    {"beh": G3, "adj": {"outbuf_high_watermark": 20, "send_bytes": 1, "channel_request_lookahead": 2}, "sndbuf": 16, "capacity": 16, "drain": 8, "reqs": 3, "late_req": True},
+    {"beh": W3, "adj": {"outbuf_high_watermark": 50, "send_bytes": 1, "channel_request_lookahead": 3}, "sndbuf": 16, "capacity": 16, "drain": 4, "reqs": 3, "late_req": True,
+     "stop_after": 60, "resume": True},
     {"beh": FW, "adj": {"outbuf_high_watermark": 20, "send_bytes": 1}, "sndbuf": 16, "capacity": 16, "drain": 8, "reqs": 2},
     {"beh": FW, "adj": {"outbuf_high_watermark": 100, "send_bytes": 50}, "sndbuf": 64, "capacity": 40, "drain": "all", "stop_after": 30, "resume": True, "reqs": 2},
     {"beh": FWN, "adj": {"outbuf_high_watermark": 20, "send_bytes": 1}, "sndbuf": 16, "capacity": 16, "drain": 8, "reset_after": 100},
